@@ -208,3 +208,10 @@ Proof. exact docs_one_by_one. Qed.
 Theorem C05_restriction_wellformed : forall s ow k,
   wf_dstore s = true -> closed s ow = true -> wf_dstore (mask s ow k) = true.
 Proof. exact mask_wf. Qed.
+
+(* exporting a copy of a member elsewhere (to_txt_file / to_json_file to another directory, under the
+   member's own file name or another one) leaves the contents of the store's own stand-off files as
+   they are: it flags nothing and - the point - unflags nothing, so C05_save_modify_save still gives
+   "after the save every referenced file holds the current content" *)
+Theorem C05_export_keeps_flags : forall cur st, NoDup (map fst cur) -> mark cur cur st = st.
+Proof. exact export_keeps_flags. Qed.
